@@ -257,6 +257,7 @@ def check(blk, vec, o, st, si, other=None):
 def run(scn, log, st):
     blk = scn['blk']
     hw, ins, outs = build(scn)
+    st.sched(scn.get('perm'), tuple(tuple(x['faults']) for x in scn['steps']))
     if scn.get('perm') is not None:
         seams.perm_children(hw, random.Random(scn['perm']), st)
     with quiet():
